@@ -44,8 +44,8 @@ CHECKS = {
              "equality with a reference built on a recursive-descent parser of the call list (emitted tree = parsed tree; first misuse "
              "sticky until Reset; use-after-emit); stickiness monitor. Tied to the code by a correspondence check (per-call error identity "
              "and class, Err(), emitted tree) on generated and exhaustively enumerated sessions, kernel-checked with vm_compute every run.",
-        note="keyword classification of error texts into classes; label abstraction of builder arguments; not covered: the same pointer "
-             "passed to two calls, concurrent use of one builder",
+        note="keyword classification of error texts into classes; label abstraction of builder arguments; the stickiness monitor has no exemption "
+             "for use after emit (c20_pre_B3_refuted); not covered: concurrent use of one builder",
         technique="Coq proof (simulation by induction on parser fuel / call list, phase lemmas, monitor invariant) + differential correspondence",
         design="DESIGN.md section 6 C20, section 13"),
 }
@@ -72,8 +72,8 @@ CHECKS["C16"] = dict(
          "v7 id supply), Start refuses non-check plugins in check groups and accepts freshly stored plans. Correspondence: mutants of valid "
          "plans (56 mutation kinds, 15 store tamperings) through the real Validate / Submit / Plan / Start on a sqlite vault in child "
          "processes, verdicts compared with WF first (any disagreement is a violation with that plan as replay), kernel-checked with vm_compute.",
-    note="uuid.NewV7 injectivity/version and the vault's Create verdict are premises; not covered: the same pointer used twice in a plan, "
-         "cosmosdb, concurrent Submits, what Create does on failure (C14)",
+    note="uuid.NewV7 injectivity/version and the vault's Create verdict are premises; a rejected Submit has no memory "
+         "(c16_rejected_submit_has_no_memory; reject-correct-resubmit family); not covered: cosmosdb, what Create does on failure (C14)",
     technique="Coq proof (queue invariant, permutation of key sets, state-passing walk) + differential correspondence against the spec",
     design="DESIGN.md section 6 C16, section 13")
 
@@ -83,12 +83,13 @@ CHECKS["C17"] = dict(
          "anywhere): the model of clone.Secure never panics and equals the one-screen specification scrub; every exposed secure-tagged field "
          "is '[secret hidden]'/zero and nothing else changes (erase equality); the same for every request/response of the five clone entry "
          "points (with and without keep-state) and for every template input of reports.Render; findSecrets errs iff a secret-looking "
-         "untagged field is reachable through struct/pointer nesting. Tied to /repo by a kernel-checked (vm_compute) differential "
+         "untagged field is reachable through structs, pointers, slices, arrays and maps (keys and elements); a secure tag on an embedded "
+         "field covers every promoted field. Tied to /repo by a kernel-checked (vm_compute) differential "
          "correspondence on run-time-built (reflect.StructOf) and hand-declared types, with canary byte-search in clone JSON and in every "
          "rendered file, and Register verdicts.",
     note="exclusions by the code's own documentation: below arrays, ordinary unexported fields; deepcopy = value-equal copy is a premise; "
-         "original-unchanged is observed (and is C18's no-sharing theorem), not proved here; registry nesting = structs and pointers only "
-         "(slices/maps of structs are not followed by the code: recorded as interpretation); tree values only (no sharing/cycles)",
+         "original-unchanged is observed (and is C18's no-sharing theorem), not proved here; "
+         "tree values only (no sharing/cycles)",
     technique="Coq proof (refinement of the reflective dispatch to a structural specification, nested induction) + differential correspondence + canary search",
     design="DESIGN.md section 6 C17, section 13")
 CHECKS["C18"] = dict(
@@ -252,7 +253,8 @@ CHECKS["C07"] = dict(
          "the group are shown Failed, with reason ContCheck / DeferredCheck at plan level unless an earlier stage failed; a deferred run "
          "begins only in an entered scope, only once, and nothing else of the scope runs after it began), c07_deferred_exactly_once at "
          "release (entered scope: exactly one deferred run; bypassed or unstarted: none), c07_thread_alive_* (safety half of 'keeps being "
-         "re-run'), and the result-channel mechanism theorems (no_failure_lost, conservation, at most one failed verdict, drain progress) "
+         "re-run'; the liveness half is REFUTED for the faithful mechanism model - c07_keeps_rerunning_refuted: the sender stalls on the "
+         "capacity-1 channel while no reader polls - witnessed on the real engine on every run and listed as known finding K1), and the result-channel mechanism theorems (no_failure_lost, conservation, at most one failed verdict, drain progress) "
          "on the detailed ContChan model. Correspondence: profiles cont (failure at the k-th run, k = 1..6, placed around sequence "
          "boundaries and the drain window), final, tol, mixed with forced deferred groups; acceptance + monitor by vm_compute; the check "
          "also requires that re-runs are actually observed; statement-shape tie of runContChecks/BlockEnd/PlanPostChecks/"
@@ -344,7 +346,7 @@ def main():
             level_note=COMMON_NOTE + c["note"], technique=c["technique"]))
     m["not_applicable"] = [dict(property_id=p, reason=PENDING_REASON) for p in ALL if p not in CHECKS]
     m["notes"] = ("see DESIGN.md (section 13 records what was built per property); known findings: known_findings.json; seeded changes: "
-                  "seeded/ (RESULTS.json: 149 of 149 caught). Supporting checks that are not properties of their own: ./check MECH "
+                  "seeded/ (RESULTS.json: 148 of 148 caught, one retired as behaviour-neutral after a fix). Supporting checks that are not properties of their own: ./check MECH "
                   "(mechanism theorems of coq/limiter + source-shape tie), ./check GLUE (31 cross-model composition theorems), ./check GEN "
                   "(gen_accepted: for every well-formed non-empty shape and every oracle the engine automaton accepts a complete released "
                   "trace, so the C01-C08 theorems are not vacuous; generator = real sequential engine runs), python3 lib/props/smgraph.py "
